@@ -9,7 +9,7 @@ git -C /repo worktree remove --force "$wt" >/dev/null 2>&1
 git -C /repo worktree add -q "$wt" HEAD || exit 2
 if ! git -C "$wt" apply "$patch"; then echo "$id: patch does not apply"; git -C /repo worktree remove --force "$wt"; exit 2; fi
 for chk in "$@"; do
-  out="/tmp/mut-$id-$chk.out"
+  mkdir -p /verif/.work/mut; out="/verif/.work/mut/mut-$id-$chk.out"
   VERIF_REPO="$wt" VERIF_TAG="m$id" VERIF_SEED="${VERIF_SEED:-1}" /verif/check "$chk" > "$out" 2>&1
   rc=$?
   nv=$(grep -c '^VIOLATION' "$out")
